@@ -143,8 +143,11 @@ family!(F11, T12A4, T24A8, T6A2, T12A4);
 family!(F12, N8A8, N16A16, N4A4, T2A2);
 family!(F13, N40A8, N4A4, T4A4, copy C4A4);
 family!(F14, N4A4, N4A4, N4A4, N4A4, same);
+// zero-sized header with over-aligned elements; over-aligned header with byte elements
+family!(F15, T8A8, T2A2, Z0, T16A16);
+family!(F16, T2A2, T8A8, T32A32, T1A1);
 
-pub const NFAMILIES: usize = 15;
+pub const NFAMILIES: usize = 17;
 
 /// Dispatch a generic function over the family index.
 #[macro_export]
@@ -165,7 +168,9 @@ macro_rules! with_family {
             11 => $f::<$crate::family::F11>($($args),*),
             12 => $f::<$crate::family::F12>($($args),*),
             13 => $f::<$crate::family::F13>($($args),*),
-            _ => $f::<$crate::family::F14>($($args),*),
+            14 => $f::<$crate::family::F14>($($args),*),
+            15 => $f::<$crate::family::F15>($($args),*),
+            _ => $f::<$crate::family::F16>($($args),*),
         }
     };
 }
